@@ -375,3 +375,12 @@ def main(ctx):
     ctx.outside += ['serde untagged deserialisation of JwkParams (kty/params mismatch through JSON)', 'SHA-256 of the thumbprint input',
                     'generated key output (cryptography)', 'member *values* (strings are opaque)']
     guarded(ctx, 'jwk kernels and audits', 'M', lambda: run(ctx, prog))
+    # "verification methods built through the library's constructors never contain private key members" also covers the did:jwk
+    # expansion: the method comes from VerificationMethod::try_from(DIDJwk) -> new_from_jwk (guarded), never from a second route
+    # (C20's obligations, re-used)
+    import c20
+
+    def jwk_expansion():
+        prog2, info2 = load(c20.CRATES)
+        c20.run(ctx, prog2, only=r'^CoreDocument::expand_did_jwk/|^VerificationMethod::try_from<DIDJwk>/')
+    guarded(ctx, 'did:jwk expansion (shared with C20)', 'M', jwk_expansion)
